@@ -14,6 +14,7 @@ WEIGHTS = {
     "def.remove_child": 2, "inst.reference=": 3, "cable.remove_wire": 2, "def.add_port": 2,
     "def.add_child": 2, "def.add_cable": 2, "port.add_pin": 2, "cable.add_wire": 2,
     "bundle.is_downto=": 0, "bundle.lower_index=": 0, "port.direction=": 0,
+    "el.clone_container": 3, "el.clone": 1, "ns.default=": 1, "el.set": 3,
 }
 
 
@@ -82,6 +83,18 @@ def check_links(U):
             n = sum(1 for y in w.pins if y is p)
             if n != 1:
                 bad.append(("pin-reports-wire-listing-it-%d-times" % n, type(p).__name__))
+    # a proxy built from (instance, inner pin) stands for the registered outer pin in every call that
+    # takes pins: it must compare equal to it and - equal objects - hash like it, at every prefix
+    import spydrnet as sdn
+    for I in P["instance"]:
+        for ip, op in list(I.pins.items()):
+            proxy = sdn.OuterPin.from_instance_and_inner_pin(I, ip)
+            if not (proxy == op):
+                bad.append(("proxy-differs-from-registered-outer-pin", ""))
+                break
+            if hash(proxy) != hash(op):
+                bad.append(("equal-outer-pins-hash-differently", ""))
+                break
     return bad
 
 
@@ -165,7 +178,7 @@ def case_strategy(weights, max_len, cfg=None, names=ops.NAMES, keys=ops.KEYS, ow
                   policies=("DEFAULT", "DEFAULT", "EDIF")):
     cfg = cfg or gen_ir.Cfg(max_defs=4, max_children=3, max_width=2, max_libs=2, unnamed=True,
                             top="maybe", top_modes=["standalone", "definition", "child"],
-                            noref_children=True, alphabet=["a", "A", "b", "c", "d", "e"])
+                            noref_children=True, alphabet=["a", "A", "b", "c", "d", "e", ""])
     small = gen_ir.Cfg(max_defs=2, max_children=2, max_width=2, max_libs=1, unnamed=True,
                        top="maybe", alphabet=["a", "b", "c", "q"])
     return st.fixed_dictionaries({
@@ -192,7 +205,7 @@ class C01(Prop):
     ASSUMPTIONS = ["a proxy OuterPin (lookup key built by from_instance_and_inner_pin) is not itself "
                    "a pin of the netlist: its own .wire field is not part of the invariant",
                    "arguments are always of the documented type"]
-    N = {"quick": 3200, "thorough": 40000}
+    N = {"quick": 6400, "thorough": 60000}
 
     def strategy(self, tier):
         return case_strategy(WEIGHTS, 40 if tier == "quick" else 120)
